@@ -504,6 +504,56 @@ func checkC18(c *core.Ctx) {
 		traces = append(traces, &Trace{Events: s.events, Class: "restart-then-late-joiners", Name: fmt.Sprintf("rejoin#%d", i),
 			Scenario: map[string]any{"nodes": names, "seeds": names[:1], "restarted": "n2", "first_messages_of_the_rejoined_node": []string{"lost towards the seed", "all lost", "in flight"}[i%3], "seed": c.Seed*131 + int64(i)}})
 	}
+	// directed: islands.  (a) two seeds that cannot talk to each other at first, each takes joiners; (b) two self-seeded
+	// nodes (each its own only seed) with joiners, and a node whose seed list names both.  Then the partition heals.
+	for i := 0; i < core.Pick(c, 12, 60); i++ {
+		rng := rand.New(rand.NewSource(c.Seed*211 + int64(i)))
+		nn := 4 + i%3
+		var names []string
+		for k := 1; k <= nn; k++ {
+			names = append(names, fmt.Sprintf("n%d", k))
+		}
+		variant := []string{"two-seeds-partitioned", "self-seeded-islands-and-a-bridge"}[i%2]
+		s := newGsim(names, []string{"n1", "n2"}, true)
+		side := map[string]string{"n1": "n1", "n2": "n2"}
+		for _, n := range names[2:] {
+			side[n] = []string{"n1", "n2"}[rng.Intn(2)]
+		}
+		side["n3"], side["n4"] = "n1", "n2" // both islands have at least two members
+		if variant == "two-seeds-partitioned" {
+			for _, a := range names {
+				for _, b := range names {
+					if a < b && side[a] != side[b] {
+						s.cut[pairKey(a, b)] = true
+					}
+				}
+			}
+		} else {
+			s.seedsOf = map[string][]string{}
+			for _, n := range names {
+				s.seedsOf[n] = []string{side[n]}
+			}
+			s.seedsOf["n3"] = []string{"n1", "n2"} // the bridge: it joins n1's island and knows n2 as a seed
+		}
+		s.launch("n1")
+		s.launch("n2")
+		for _, k := range rng.Perm(nn - 2) {
+			n := names[2+k]
+			s.launch(n)
+			s.join(n, side[n])
+			if rng.Intn(2) == 0 {
+				s.round(rng.Intn)
+			}
+		}
+		for r := 0; r < 1+rng.Intn(3); r++ {
+			s.round(rng.Intn)
+		}
+		s.finish(rng) // heals, settles, probes
+		c.Add("evaluations", 1)
+		classes["islands-"+variant]++
+		traces = append(traces, &Trace{Events: s.events, Class: "islands-" + variant, Name: fmt.Sprintf("islands#%d", i),
+			Scenario: map[string]any{"nodes": names, "variant": variant, "island_of": side, "seed": c.Seed*211 + int64(i)}})
+	}
 	// failure detection on (the default configuration has it on with 40 s): healthy clusters, no faults at all
 	for i := 0; i < core.Pick(c, 4, 12); i++ {
 		nn := 2 + i%3
